@@ -12,7 +12,7 @@ func init() {
 	register(&Rule{ID: "R8.flag-under-lock", Props: []string{"C08"}, Floor: 2,
 		Text: "every store to the dirty flag (Server.aofdirty.Store) executes with Server.mu held exclusively: appends set it and the pre-write clears it inside the same critical section as the flush, so a concurrent append is either flushed by that section or re-sets the flag after the clear",
 		Run:  ruleFlagUnderLock})
-	register(&Rule{ID: "R8.flush-before-send", Props: []string{"C08"}, Floor: 1,
+	register(&Rule{ID: "R8.flush-before-send", Props: []string{"C08", "C03"}, Floor: 1,
 		Text: "in netServe's connection closure every write of client.out to the socket is separated from every preceding handleInputCommand call by either the false edge of aofdirty.Load() or a flushAOF call made with Server.mu held exclusively (directly, in an invoked literal, or in a helper — must-pass-through on go/cfg with summaries, inlining bound 3)",
 		Run:  ruleFlushBeforeSend})
 	register(&Rule{ID: "R8.set-on-append", Props: []string{"C08", "C18"}, Floor: 1,
@@ -257,6 +257,14 @@ func ruleFlushBeforeSend(c *Ctx) {
 			c.ok(key, call.Pos(), true, "every path from a handled command to this socket write passes the dirty-flag test (clean) or a flush under the exclusive lock")
 		}
 	}
+}
+
+func init() {
+	register(&Rule{ID: "R8.log-under-lock", Props: []string{"C08", "C03"}, Floor: 8,
+		Text: "'buffer empty' means 'everything accepted is in the file' only while the buffer and the file are changed together: every write of Server.aofbuf and every write of the log file Server.aof (also through a local that holds the handle) executes with Server.mu held exclusively — a flusher that takes the buffer over under the lock and writes it after the unlock lets a connection's pre-write find an empty buffer, clear the flag and acknowledge while the bytes are still on their way (the lock-state engine of C07, restricted to the two locations)",
+		Run: func(c *Ctx) {
+			ruleLockAccessFor(c, true, map[string]bool{"Server.aof": true, "Server.aofbuf": true})
+		}})
 }
 
 func ruleSetOnAppend(c *Ctx) {
